@@ -437,6 +437,11 @@ pub trait Prop: Sync {
     fn run_worker(&self, ctx: &Ctx, rep: &mut Report);
     /// Strictly judge one saved case (a `case` value as stored in a replay file).
     fn replay(&self, ctx: &Ctx, case: &Value) -> Obs;
+    /// The property's generators as one strategy over saved-case values, for the coverage-guided
+    /// stage (`fuzzmode`): every value it yields must be judgeable by `replay`.
+    fn fuzz_strategy(&self) -> Option<proptest::strategy::BoxedStrategy<Value>> {
+        None
+    }
 }
 
 // ---------------------------------------------------------------------------------------------
